@@ -75,12 +75,15 @@ func PmtAccumulatorDoneFunc(b []byte) (bool, error) {
 	}
 
 	start := 1 + int(PointerField(b))
-	if len(b) < start {
+	if len(b) <= start {
 		return false, nil
 	}
 
 	sectionBytes := b[start:]
-	for len(sectionBytes) > 2 && sectionBytes[0] != 0xFF {
+	for len(sectionBytes) > 0 && sectionBytes[0] != 0xFF {
+		if len(sectionBytes) < 3 {
+			return false, nil
+		}
 		tableLength := sectionLength(sectionBytes)
 		if len(sectionBytes) < int(tableLength)+3 {
 			return false, nil
